@@ -578,4 +578,162 @@ def run(ctx, prog):
     ctx.floor('C07.R7', 'tier-failure records in the search entry points', n_ev['tier_failed'], 2, 'timed search: hot and cold tier (5 arms on the pinned tree)')
     ctx.floor('C07.R7', 'circuit-breaker tests in the search entry points', n_ev['breaker_open'], 2, 'timed search: hot and cold breaker')
     ctx.floor('C07.R7', 'permit requests in the search entry points', n_ev['shed'], 2, 'timed search: query permit, hot and cold worker permits')
+    # ------------------------------------------------------------------ R8 an under-full entry does not survive an insert
+    ctx.rule('C07.R8', 'an under-full entry does not survive an insert: in the scan of invalidate_for_insert every path that goes on to the next cached entry without '
+                       'scheduling the current one for removal crosses the false edge of `len(entry.results) < entry.requested_k` (integer normal form). An entry with '
+                       'fewer results than were asked for has no distance boundary — every new document of its scope belongs into it — so the distance comparison '
+                       'that lets full entries survive says nothing about it; kept, it is served as a CacheHit that omits the inserted document')
+    if ifi_ok(ctx, prog):
+        pass
+    # ------------------------------------------------------------------ R9 one split of the vector on both sides of the insert-time bound
+    prefix_agreement(ctx, prog)
     ctx.stat('functions_analysed', len(set(i['key'].split(' | ')[1] for i in ctx.instances)))
+
+
+_UNDERFULL = re.compile(r'^cmp\[\+ Vec::len\((?P<e1>.+)→CachedQueryResult\.results\) - (?P=e1)→CachedQueryResult\.requested_k <= -1\]$|'
+                        r'^cmp\[\+ (?P<e2>.+)→CachedQueryResult\.requested_k - Vec::len\((?P=e2)→CachedQueryResult\.results\) >= 1\]$')
+
+
+def ifi_ok(ctx, prog):
+    f = ctx.body('C07.R8', 'QueryHashCache::invalidate_for_insert')
+    of = flow.Origin(f)
+    heads = [c for c in f.calls if c.is_('re:Iterator>::next$') and c.bb in f.reach([c.bb]) and c.args and
+             re.search(r'QueryCacheState\.cache\)*$', flow.render(of.of_operand(c.args[0])))]
+    if len(heads) != 1:
+        ctx.missing('C07.R8', 'invalidate_for_insert: the scan loop over QueryCacheState.cache (%d candidates)' % len(heads))
+        return False
+    h = heads[0]
+    item = flow.render(of.of_local(h.dest['l'])) if h.dest and not h.dest.get('p') else '?'
+    s_e, _f = flow.outcome_edges(f, h)
+    starts = [e[1] for e in (s_e or [])]
+    # "scheduled for removal": the entry's key is pushed to the vector whose elements are later handed to remove_entry
+    rm = f.calls_to('QueryHashCache::remove_entry')
+    rm_src = set(id(x[3]) for c in rm for x in flow.calls_in(of.of_operand(c.args[1])) if len(x) > 3) if rm else set()
+    pushes = []
+    for c in f.calls:
+        if c.callee and re.search(r'Vec<.*>::push$|Vec::push$', c.callee) and len(c.args) == 2 and c.bb in f.reach(starts):
+            vec = of.of_operand(c.args[0])
+            key = flow.render(of.of_operand(c.args[1]))
+            if any(len(x) > 3 and id(x[3]) in rm_src for x in flow.calls_in(vec)) and key.startswith(item + '@Some'):
+                pushes.append(c.bb)
+    nuf, uf = [], []
+    for i, blk in enumerate(f.blocks):
+        if blk['t']['k'] == 'switch' and i in f.live_blocks():
+            for tg, p in flow.switch_edge_predicates(f, i, of):
+                m = _UNDERFULL.match(p[1:] if p.startswith('!') else p)
+                if m and (m.group('e1') or m.group('e2')).startswith(item + '@Some'):
+                    (nuf if p.startswith('!') else uf).append((i, tg))
+    keep = f.reach(starts, avoid_blocks=pushes, avoid_edges=nuf) | (set(starts) - set(pushes))
+    leak = h.bb in keep
+    # …and the under-full edge itself schedules the removal before the next entry is looked at
+    uf_leak = (not uf) or h.bb in (f.reach([tg for _, tg in uf], avoid_blocks=pushes) | (set(tg for _, tg in uf) - set(pushes)))
+    ctx.inst('C07.R8', f.short, 'an entry is kept across an insert only past `len(results) ≥ requested_k`', bool(starts) and bool(pushes) and bool(nuf) and not leak and not uf_leak,
+             ('no test `len(entry.results) < entry.requested_k` guards the keep paths of the scan: an entry that holds fewer results than were requested (its scope had fewer than '
+              'k documents) survives the insert of a document that is farther than its current worst result, and the next search is a CacheHit without that document'
+              if not nuf else
+              'the next entry is reachable without removing the current one and without passing the not-under-full edge' if leak else
+              'the under-full edge does not schedule the entry for removal' if uf_leak else 'removal pushes not recognised') if not (bool(starts) and bool(pushes) and bool(nuf) and not leak and not uf_leak)
+             else '%d removal sites in the scan; keep paths cross the not-under-full edge %s; the under-full edge removes' % (len(pushes), nuf))
+    ctx.floor('C07.R8', 'removal sites in the scan of invalidate_for_insert', len(pushes), 3, 'missing embedding, under-full, dimension mismatch, non-finite boundary, non-finite distance, inside the boundary (6 on the pinned tree)')
+    return True
+
+
+def _usize_param(b):
+    ps = [i for i in range(b.argc) if b.locals[i + 1] == 'usize']
+    return ps[0] if len(ps) == 1 else None
+
+
+def _resolve_capture(prog, b, e):
+    """a captured variable of a closure body, seen from the body that creates the closure"""
+    if e[0] == 'field' and isinstance(e[2], str) and e[2].startswith('^') and e[1][0] == 'arg' and b.parent:
+        n = int(e[2][1:].split(':', 1)[0])
+        pb = prog.bodies.get(b.parent)
+        if pb is not None:
+            for blk in pb.blocks:
+                for st in blk['s']:
+                    rv = st.get('rv')
+                    if rv and rv['k'] == 'agg' and rv.get('def') == b.id and n < len(rv['ops']):
+                        return flow.Origin(pb).of_operand(rv['ops'][n])
+    return e
+
+
+def _prefix_core(e):
+    """min(P, len(..)) in any nesting / operand order -> P: every consumer clamps the prefix to the vector length, so only P distinguishes two splits"""
+    while True:
+        while e[0] == 'cast':
+            e = e[1]
+        if e[0] == 'call' and flow.short(e[1]).endswith('::min') and len(e[2]) == 2:
+            islen = [a[0] == 'call' and re.search(r'(slice|Vec)::len$', flow.short(a[1])) is not None or (a[0] == 'un' and a[1] == 'PtrMetadata') for a in e[2]]
+            if islen[0] != islen[1]:
+                e = e[2][0] if islen[1] else e[2][1]
+                continue
+        return e
+
+
+def prefix_agreement(ctx, prog):
+    rid = 'C07.R9'
+    ctx.rule(rid, 'one split of the vector on both sides of the insert-time bound. The Cosine / InnerProduct pre-filter bounds dot(q, v) by  dot(q[..P], v[..P]) + ‖q[S_q..]‖·‖v[S_v..]‖ ; '
+                  'that is an upper bound only if both tail norms cover every lane the prefix dot product leaves out: S_q ≤ P and S_v ≤ P (each clamped to the vector length by '
+                  'its consumer). Decided: every QueryEmbeddingStats value is produced by embedding_stats; the prefix length handed to insert_can_affect_cached_boundary reaches '
+                  'the prefix dot product unchanged; and the prefix each embedding_stats call site uses — store time, the inserted vector, the fallback for a missing stored '
+                  'value — is the same expression as, or a constant not larger than, that live prefix. A shorter live prefix leaves lanes that are in neither term: an insert '
+                  'that lands inside a cached boundary is judged harmless and the stale entry is served')
+    es = ctx.body(rid, 'QueryHashCache::embedding_stats')
+    bd = ctx.body(rid, 'QueryHashCache::insert_can_affect_cached_boundary')
+    aggs = sorted(set(b.short.split('::{')[0] for b in prog.bodies.values() if b.kind != 'Promoted' for blk in b.blocks for st in blk['s']
+                      if st.get('rv', {}).get('k') == 'agg' and st['rv'].get('adt', '').endswith('query_hash_cache::QueryEmbeddingStats')))
+    makers = [x for x in aggs if not x.endswith('::default')]
+    dflt = [c for c in prog.all_calls() if c.callee and re.search(r'QueryEmbeddingStats as core::default::Default>::default$', c.callee)] + \
+           [c for c in prog.all_calls() if c.callee and re.search(r'unwrap_or_default$', c.callee) and 'QueryEmbeddingStats' in ' '.join(str(g) for g in c.ga)]
+    ctx.inst(rid, 'QueryEmbeddingStats', 'values come only from embedding_stats', makers == [es.short] and not dflt, 'constructed in %s; uses of the all-zero default: %d' % (aggs, len(dflt)))
+    pe, pb_ = _usize_param(es), _usize_param(bd)
+    if pe is None or pb_ is None:
+        ctx.missing(rid, 'the prefix-length parameter (the one usize parameter) of embedding_stats / insert_can_affect_cached_boundary')
+        return
+    # the prefix reaches the prefix dot product unchanged
+    fam, work = {}, [bd]
+    while work:
+        g = work.pop()
+        if g.id in fam:
+            continue
+        fam[g.id] = g
+        for c in g.calls:
+            hb = prog.resolve_local(c.callee) if c.callee else None
+            if hb is not None and '::query_hash_cache::QueryHashCache::' in hb.id and _usize_param(hb) is not None and hb.id != es.id:
+                work.append(hb)
+    n_hop = 0
+    for g in sorted(fam.values(), key=lambda x: x.id):
+        og = flow.Origin(g)
+        for c in g.calls:
+            hb = prog.resolve_local(c.callee) if c.callee else None
+            if hb is None or hb.id not in fam or hb.id == g.id:
+                continue
+            n_hop += 1
+            a = og.of_operand(c.args[_usize_param(hb)])
+            ok = a[0] == 'arg' and a[1] == _usize_param(g) + 1
+            ctx.inst(rid, g.short, 'hands its own prefix length on to %s' % hb.name, ok, 'prefix argument = %s' % flow.render(a)[:120])
+    ctx.floor(rid, 'hops between insert_can_affect_cached_boundary and the prefix sums', n_hop, 3, 'l2_prefix_sq, cosine → dot upper bound → dot_prefix (5 on the pinned tree)')
+    live = [c for c in prog.callers_of(bd.id) if c.callee == bd.id or prog.resolve_local(c.callee) is bd]
+    if len(live) != 1:
+        ctx.missing(rid, 'the one call of insert_can_affect_cached_boundary (%d found)' % len(live))
+        return
+    lb = live[0].body
+    P = _prefix_core(_resolve_capture(prog, lb, flow.Origin(lb).of_operand(live[0].args[pb_])))
+    Pr = flow.render(P)
+    n_s = 0
+    for c in sorted(prog.callers_of(es.id), key=lambda c: (c.body.id, c.bb)):
+        if prog.resolve_local(c.callee) is not es:
+            continue
+        n_s += 1
+        b = c.body
+        S = _prefix_core(_resolve_capture(prog, b, flow.Origin(b).of_operand(c.args[pe])))
+        Sr = flow.render(S)
+        same = Sr == Pr and not re.search(r'_\d+\b|<runtime>', Sr)
+        le = S[0] == 'const' and P[0] == 'const' and S[2] is not None and P[2] is not None and S[2] <= P[2]
+        who = b.short.split('::{')[0]
+        k9 = sum(1 for x in ctx.instances if x.get('config') == ctx.config and x['rule'] == rid and x['key'].startswith('%s | %s | tail norm #' % (rid, who)))
+        ctx.inst(rid, who, 'tail norm #%d is taken over a split no later than the live prefix' % k9, same or le,
+                 'embedding_stats prefix = min(%s, len); prefix of the live dot product = min(%s, len)%s' % (Sr[:90], Pr[:90], '' if same or le else
+                 ' — not the same expression and not two constants in order: lanes between the two splits are in neither the prefix dot product nor this tail norm, the '
+                 '"upper bound" of the Cosine / InnerProduct pre-filter can fall below the true similarity'))
+    ctx.floor(rid, 'embedding_stats call sites', n_s, 3, 'store time, inserted vector, fallback closure')
